@@ -396,20 +396,26 @@ fn canon_floats(v: &mut serde_json::Value) {
 
 /// The real AST as canonical JSON text ("E" for a syntax error, "P" for a panic).
 pub fn ast_obs(src: &str) -> String {
+    ast_obs_value(src).0
+}
+
+/// `ast_obs` together with the JSON value it was printed from (deep trees exceed the recursion limit of
+/// `serde_json::from_str`, so consumers that walk the tree take the value).
+pub fn ast_obs_value(src: &str) -> (String, Option<serde_json::Value>) {
     match compile(src) {
         Err(e) => {
             if e == "P" {
-                "P".to_string()
+                ("P".to_string(), None)
             } else {
-                "E".to_string()
+                ("E".to_string(), None)
             }
         }
         Ok(p) => match p.ast() {
-            None => "no-ast".to_string(),
+            None => ("no-ast".to_string(), None),
             Some(a) => {
                 let mut v = serde_json::to_value(a).unwrap_or(serde_json::Value::Null);
                 canon_floats(&mut v);
-                v.to_string()
+                (v.to_string(), Some(v))
             }
         },
     }
